@@ -366,6 +366,27 @@ impl<'a, 'tcx> Cx<'a, 'tcx> {
                             if lits.len() == 1 && format!("{}", ty).ends_with("&str") {
                                 kv.push(("pstr", J::Str(lits.remove(0))));
                             }
+                            // a promoted `&Enum::UnitVariant`: recover the variant from the promoted body
+                            let mut units: Vec<(String, String)> = vec![];
+                            let mut other_aggs = 0;
+                            for bbd in pb.basic_blocks.iter() {
+                                for st in &bbd.statements {
+                                    if let StatementKind::Assign(box (_, Rvalue::Aggregate(box ak, ops))) = &st.kind {
+                                        match ak {
+                                            AggregateKind::Adt(d, vi, _, _, _) if ops.is_empty() && tcx.adt_def(*d).is_enum() => {
+                                                let adt = tcx.adt_def(*d);
+                                                units.push((def_key(tcx, *d), adt.variant(*vi).name.to_string()));
+                                            }
+                                            _ => other_aggs += 1,
+                                        }
+                                    }
+                                }
+                            }
+                            if units.len() == 1 && other_aggs == 0 {
+                                let (a, v) = units.remove(0);
+                                kv.push(("penum_adt", J::Str(a)));
+                                kv.push(("penum_variant", J::Str(v)));
+                            }
                         }
                     }
                 }
